@@ -59,6 +59,19 @@ const (
 	c16SigWrap     = "FETCH RELATIVE with a huge offset: pointer wraps around instead of stopping before the first / after the last record"
 )
 
+const c16WhatNoRecord = "no record where the snapshot has one"
+
+// c16Positional: the disagreement is one about WHERE the pointer is (a record of the snapshot at another position, a
+// record where none exists or the reverse, a status value) - what a wrapped-around pointer looks like. A row that is
+// not in the snapshot at all is another defect and keeps the signature of the operation it was seen after.
+func c16Positional(what string) bool {
+	switch what {
+	case "a row where no record exists", "snapshot row of another position", c16WhatNoRecord, "status value", c16SigVarsKept:
+		return true
+	}
+	return false
+}
+
 type c16Cfg struct {
 	ID      string
 	Src     string // file | temp
@@ -389,6 +402,8 @@ func (x *c16Exec) step(op cm.Op, pre, post cm.State, want cm.Outcome) *c16Div {
 		switch {
 		case cm.SameRow(gotRow, unset):
 			what = "variables not assigned though the record exists"
+		case cm.SameRow(gotRow, cm.Row{rv.N(), rv.N()}):
+			what = c16WhatNoRecord
 		case post.Index < len(live) && cm.SameRow(gotRow, live[post.Index]):
 			what = "row of the live table, not of the snapshot taken at OPEN"
 		default:
@@ -530,7 +545,7 @@ func c16ValidateOnce(cfg *c16Cfg, dir string, path []cm.Op, op cm.Op, verbose bo
 		p2, pout := cm.Apply(s, p, &cfg.M)
 		if d := x.step(p, s, p2, pout); d != nil {
 			sig := fmt.Sprintf("%s|%s on %s|state after the operation: %s: %s", cfg.Src, c16OpClass(op), pre.Class(), c16OpClass(p), d.What)
-			if op.K == cm.FetchRel && (op.N >= 1<<62 || op.N <= -(1<<62)) {
+			if op.K == cm.FetchRel && (op.N >= 1<<62 || op.N <= -(1<<62)) && c16Positional(d.What) {
 				sig = c16SigWrap
 			}
 			report(sig, d, history(len(path)+1)+"; then probing with "+p.String())
@@ -729,7 +744,7 @@ func c16Run(c *core.Ctx) {
 }
 
 func c16Replay(c *core.Ctx, payload json.RawMessage) {
-	if c16InvocationsReplay(c, payload) || c16RepoReplay(c, payload) {
+	if c16InvocationsReplay(c, payload) || c16RepoReplay(c, payload) || c16BlocksReplay(c, payload) || c16SharedReplay(c, payload) || c16MagnitudeReplay(c, payload) {
 		return
 	}
 	var np struct {
